@@ -1,6 +1,7 @@
 import CanvasModel.C14
 import CanvasProofs.Lemmas.C14
 import CanvasProofs.Lemmas.C14Box
+import CanvasProofs.Lemmas.C14Far
 import CanvasProofs.Lemmas.Wn
 
 /-! # C14 — Rasterization paints exactly the pixels inside (partial)
@@ -299,6 +300,21 @@ theorem owner_replay (ds : List IDraw) (p : IPt) : owner ds p = replay (numbered
 exactly the specification's `owner` -/
 theorem ownerFast_eq_owner (ds : List IDraw) (p : IPt) : ownerFast (ds.map mkBDraw) p = owner ds p :=
   ownerFastAux_eq p ds 1 0
+
+/-- the "more than d from every edge" test behind the bounding boxes is the exact test of the
+specification (`Wn.farFromPoly`, squared distances, no rounding) -/
+theorem far_prefilter_exact (pts : List IPt) (p : IPt) (d : Int) (hd : 0 ≤ d) :
+    (mkBPoly pts).far p d = farFromPoly p (d * d) pts := by
+  unfold BPoly.far
+  rw [mkBPoly_pts, ← farPolyFast_eq p d hd pts]
+  by_cases h : (decide (p.x + d < (mkBPoly pts).xmin) || decide ((mkBPoly pts).xmax + d < p.x) || decide (p.y + d < (mkBPoly pts).ymin) || decide ((mkBPoly pts).ymax + d < p.y)) = true
+  · rw [if_pos h]
+    simp only [Bool.or_eq_true, decide_eq_true_eq] at h
+    symm
+    apply farPolyFast_of_outside p d (d * d) (mkBPoly pts).xmin (mkBPoly pts).xmax (mkBPoly pts).ymin (mkBPoly pts).ymax
+    · unfold outsideBox; omega
+    · exact mkBPoly_bounds pts
+  · rw [if_neg h]
 
 /-- a contour entirely above, below or to the left of a point does not wind around it -/
 theorem wn1_outside_box (pts : List IPt) (p : IPt) : (mkBPoly pts).wn1 p = wn1 p pts := BPoly_wn1 pts p
